@@ -15,6 +15,7 @@ type c14Decl struct {
 	M   map[string]string `long:"map"`
 	B   bool              `long:"bb"`
 	C   string            `long:"cho" choice:"lo" choice:"hi"`
+	H   string            `long:"hid" hidden:"yes"`
 	Grp c14Grp            `group:"Grp"`
 }
 
@@ -108,6 +109,8 @@ func H_C14_lines(v *V) {
 	var lines []string
 	lines = append(lines, noise()...)
 	lines = append(lines, c14Blanks(v)+"str"+c14Blanks(v)+"="+c14Blanks(v)+V1+c14Blanks(v))
+	// an option hidden from the help is an ordinary INI key
+	lines = append(lines, "hid = hv")
 	lines = append(lines, noise()...)
 	faultLine := 0
 	var faultText string
@@ -169,7 +172,7 @@ func H_C14_lines(v *V) {
 	err := NewIniParser(p).Parse(strings.NewReader(text))
 	vObsErr(v, err)
 	applied := func() {
-		v.Assert(v.EqStr(d.S, V1), "noise lines and surrounding blanks do not change what an entry means")
+		v.Assert(v.EqStr(d.S, V1) && d.H == "hv", "noise lines and surrounding blanks do not change what an entry means")
 		v.Assert(v.EqStr(d.Grp.G, V2), "entries after a section header address that group")
 	}
 	switch {
